@@ -68,6 +68,11 @@ func runInst(is instSpec, file []byte, inst int, g *gate) (res instResult) {
 	ctx := buildCtx{poff: is.Poff}
 	if is.Kind == "r" {
 		src := &source{data: file, inst: inst, g: g}
+		if is.FailAt > 0 { // a reader whose source fails once, at its FailAt-th call (error paths must not leave shared state behind)
+			src.faultAt, src.faultKind = is.FailAt, "half"
+		} else if is.FailAt < 0 { // ... or at its (-FailAt)-th read of more than 8 bytes, i.e. inside a page body
+			src.faultBigAt, src.faultKind = -is.FailAt, "half"
+		}
 		r, err := NewParquetReader(src)
 		if err != nil {
 			res.err = err.Error()
